@@ -60,16 +60,19 @@ def script_from_state(m, sc, v, trail=None):
     pol = st.roots['policy']
     config = {'policy': {'base': ev(pol[0], mdl), 'ppm': ev(pol[1], mdl), 'delta': ev(pol[2], mdl)},
               'cltv_delta': ev(st.roots['cltv_delta'], mdl), 'mpp_timeout_s': cfg['mpp_timeout_s'] if not isinstance(cfg['mpp_timeout_s'], T) else ev(cfg['mpp_timeout_s'], mdl),
-              'allow_self': cfg['allow_self'], 'xpay': cfg['xpay'],
+              'allow_self': cfg['allow_self'] if isinstance(cfg['allow_self'], bool) else bool(sym.evaluate(cfg['allow_self'], mdl)), 'xpay': cfg['xpay'],
               'height': ev(cfg['height'] if cfg['height'] is not None else sym.var('height0'), mdl)}
     invoices = []
     for iv in cfg['invoices']:
         sig = iv.sig_ok if isinstance(iv.sig_ok, bool) else bool(sym.evaluate(iv.sig_ok, mdl))
         self_hint = False
+        hint_shapes = []
         for hops in iv.hints:
-            if hops and bool(sym.evaluate(sym.eq(hops[-1], sym.var('local_node_id')), mdl)):
+            shape = [bool(sym.evaluate(sym.eq(h, sym.var('local_node_id')), mdl)) for h in hops]
+            hint_shapes.append(shape)
+            if shape and shape[-1]:
                 self_hint = True
-        invoices.append({'ident': iv.ident, 'amount': ev(iv.amount, mdl), 'sig_ok': sig, 'self_hint': self_hint})
+        invoices.append({'ident': iv.ident, 'amount': ev(iv.amount, mdl), 'sig_ok': sig, 'self_hint': self_hint, 'hints': hint_shapes})
     setup = []
     mode = st.roots.get('store_init', 'free_absent')
     inv0 = cfg['invoices'][0].ident
@@ -523,7 +526,43 @@ def j_unpayable(v, script, nat):
             want, [r['response'].get('failure_message') for r in probes], [d['string'][:40] for d in recs])
     return False, 'retries not all answered natively: %s, waiting %s' % (probes, nat.get('still_waiting'))
 
+def j_classify(v, script, nat):
+    """Expected classification of htlc 0 computed from the concrete script vs what the real code did."""
+    op = _htlc_ops(script)[0]
+    inv = script['invoices'][op['invoice']]
+    exp = 'trampoline'
+    if op.get('scid') or op.get('forward') is None or not inv['sig_ok'] or op.get('hash') == 'other':
+        exp = 'continue'
+    else:
+        tlv = op.get('tlv_amount')
+        tv = int(tlv or '0', 16) if tlv is not None and len(tlv) <= 16 else None
+        if inv['amount'] is not None:
+            if tv is not None and tv != int(inv['amount']):
+                exp = 'continue'
+        elif tv is None:
+            exp = 'continue'
+    if exp == 'trampoline' and any(h and h[-1] for h in inv.get('hints', [])) and not script['config']['allow_self']:
+        exp = 'fail'
+    started = any(e.get('event') == 'rpc' and e.get('method') == 'listdatastore' for e in nat.get('trace', []))
+    r = _resp(nat, 0)
+    obs = 'trampoline' if started else (r.get('result') if r else 'unanswered')
+    if nat.get('task_panics') or nat.get('panics'):
+        return True, 'panic: %s' % (nat.get('task_panics') or nat.get('panics'))[:2]
+    if obs != exp:
+        return True, 'htlc treated as %s, expected %s (invoice %s, amount field %s, hash %s, allow_self %s)' % (
+            obs, exp, inv, op.get('tlv_amount'), op.get('hash'), script['config']['allow_self'])
+    return False, 'classified as %s natively, as expected' % obs
+
 JUDGES = {
+    'trampoline-without-valid-signature': j_classify,
+    'trampoline-with-foreign-hash': j_classify,
+    'self-route-hint-accepted': j_classify,
+    'amount-not-from-invoice': j_classify,
+    'disagreeing-amount-field-accepted': j_classify,
+    'amountless-without-usable-amount-field': j_classify,
+    'amount-not-from-amount-field': j_classify,
+    'failed-without-reason': j_classify,
+    'neither-answered-nor-held': j_classify,
     'permanently-unpayable': j_unpayable,
     'blocking-send-under-lock': j_lock,
     'rpc-under-payments-lock': j_lock,
